@@ -147,3 +147,9 @@ package storage
 //@   ensures embedded_used [C07]: err == nil && header.Version == 2 && hasidx ==> ref(sc.idx) == ref(eidx)
 //@   ensures versions [C07]: err == nil ==> header.Version == 1 || header.Version == 2
 //@   ensures read_only [C04,C07]: err == nil ==> sc.writer == nil && !sc.closed && ref(result0) == ref(sc)
+
+//@ func (*StorageCar).Roots
+//@   ensures def [C07]: result == sc.roots
+
+//@ func (*StorageCar).Index
+//@   ensures def [C07]: ref(result) == ref(sc.idx)
